@@ -60,6 +60,9 @@ def job_shapes(module, family, shard, nshards, quick):
     if family == 'pairs':
         from . import gen as G
         models = (f for _, f in G.pair_documents())
+    elif family == 'repetition':
+        from . import gen as G
+        models = (f for _, f in G.repetition_documents())
     else:
         models = mod.shapes(family, quick)
     for i, model in enumerate(models):
@@ -142,7 +145,7 @@ def job_edits(module, max_chars, bi):
 def run_shapes(ctx, module, families, structure_n=(5, 6)):
     ns = 16
     mod = importlib.import_module(module)
-    for fam in list(families) + ['pairs']:
+    for fam in list(families) + ['pairs', 'repetition']:
         ctx.level('shapes:' + fam, [job_shapes.job(module, fam, s, ns, ctx.quick) for s in range(ns)])
     from . import gen as G
     nb = len(G.base_documents())
